@@ -44,6 +44,37 @@ type Ctx struct {
 	forder []string
 	liftDepth int
 	seedSmall bool // ground instantiation seeds small integer literals (model extraction)
+	// an open hermetic section (see begin): the terms made since it was opened
+	hermetic bool
+	jKeys    []string
+	jTerms   []*Term
+}
+
+// begin opens a hermetic section: every term made until rollback is forgotten again, and the term and
+// fresh-name counters return to their values at begin. The text of a query is rendered inside one
+// (the instances, skolem constants and case-specialised copies made for it are used for nothing
+// else), so that it does not depend on which other queries were rendered before it: obligations are
+// discharged concurrently, and the numbering would otherwise follow the scheduler.
+// Nothing made inside the section may be kept by the caller.
+func (c *Ctx) begin() (n, fresh int) {
+	if c.hermetic {
+		panic("nested hermetic section")
+	}
+	c.hermetic = true
+	return c.n, c.fresh
+}
+
+func (c *Ctx) rollback(n, fresh int) {
+	for _, k := range c.jKeys {
+		delete(c.tab, k)
+	}
+	for _, t := range c.jTerms {
+		delete(qpats, t)
+		delete(qnvars, t)
+	}
+	c.jKeys, c.jTerms = c.jKeys[:0], c.jTerms[:0]
+	c.n, c.fresh = n, fresh
+	c.hermetic = false
 }
 
 func NewCtx(bv bool) *Ctx {
@@ -100,6 +131,10 @@ func (c *Ctx) mk(op string, sort Sort, args ...*Term) *Term {
 		t.raw = fmt.Sprintf("t%d", t.id)
 	}
 	c.tab[key] = t
+	if c.hermetic {
+		c.jKeys = append(c.jKeys, key)
+		c.jTerms = append(c.jTerms, t)
+	}
 	return t
 }
 
